@@ -110,6 +110,15 @@ class GrantServer(ns.LogServer):
         return ALLOCATED if port == 0 else port      # like sshd: port 0 = "pick one for me"
 
 
+class RecordingSubsystem(paramiko.SubsystemHandler):
+    """what a client application might register by mistake / for its own server role: it must never be started by a
+    request coming from the server the client is connected to"""
+    started = []
+
+    def start_subsystem(self, name, transport, channel):
+        RecordingSubsystem.started.append(name)
+
+
 def chanreq_payload(kind):
     """well-formed type-specific fields so that a request reaches the decision, not a parse error"""
     m = Message()
@@ -247,6 +256,8 @@ class RefusalSession:
                 self.granted[arg] = got_port
             except paramiko.SSHException as e:
                 rec["raised"], rec["extra"] = True, repr(e)
+        elif op == "subsys":
+            tc.set_subsystem_handler("sftp", RecordingSubsystem)      # the name chanreq_payload("subsystem") asks for
         elif op == "cancel":
             try:
                 # as the documentation says: cancel with the port number request_port_forward returned
@@ -258,6 +269,7 @@ class RefusalSession:
             sp = ts.packetizer
             n0 = len(sp.tap_in_full)
             ch0 = self._client_channels()
+            ran0 = len(RecordingSubsystem.started)
             if op == "global":
                 m = Message()
                 m.add_byte(bytes([MSG_GLOBAL_REQUEST]))
@@ -302,6 +314,8 @@ class RefusalSession:
                         if c2 is not None:
                             c2.close()
                     self._settle_after_event(rec)
+            if len(RecordingSubsystem.started) > ran0:
+                rec["extra"] = (rec["extra"] + " the registered subsystem handler was started").strip()
             if op != "open":
                 if got:
                     rec["reply"] = REPLY_NAMES[got[0]]
@@ -317,14 +331,25 @@ class RefusalSession:
 
 def run_history(steps):
     """execute a history on a fresh session; returns the list of records.  A step that needs a live client
-    channel when there is none (the model has the same precondition) is not executed and not recorded."""
+    channel when the history itself has none (never opened, or closed by a refused x11 request - the model has the
+    same precondition) is not executed and not recorded.  If the channel went away for any other reason (e.g. the
+    client did something with a server request that closed it) a new session channel is opened for the next step."""
     rs = RefusalSession()
     out = []
+    chan = False          # the history has a live client channel
     try:
         for (op, arg, flag) in steps:
-            if op in ("x11", "agent", "chanreq") and (rs.ch is None or rs.ch.closed):
-                continue
-            out.append(rs.step(op, arg, flag))
+            if op in ("x11", "agent", "chanreq"):
+                if not chan:
+                    continue
+                if rs.ch is None or rs.ch.closed:
+                    rs.step("open_session", "", False)
+            rec = rs.step(op, arg, flag)
+            out.append(rec)
+            if op == "open_session":
+                chan = not rec["raised"]
+            elif op == "x11" and rec["raised"]:
+                chan = False
             if rs.gone:
                 break
     finally:
@@ -429,8 +454,9 @@ def auth_view(full):
                     secret = True
                 elif method == "publickey" and m.get_boolean():
                     secret = True
-                elif method not in ("none", "keyboard-interactive", "publickey"):
-                    secret = True          # anything else (gssapi tokens, hostbased) is treated as a credential
+                elif method not in ("none", "keyboard-interactive", "publickey", "gssapi-with-mic"):
+                    # (the gssapi-with-mic request itself only lists mechanism OIDs)
+                    secret = True          # anything else (gssapi-keyex MIC, hostbased) is treated as a credential
             except Exception:
                 secret = True
     return n, secret
@@ -493,7 +519,10 @@ class ServerEnd:
                         or not client_transport.is_active(), timeout)
 
 
-def tapped_transport(sock, **kw):
+def tapped_transport(sock, gss_kex=False, gss_deleg_creds=True, **kw):
+    # SSHClient passes its gss_kex argument on to the Transport constructor, which needs a GSS-API library for it.
+    # The peer of these runs never negotiates a GSS key exchange, so the transport is built without it: what is
+    # examined is what the CALLER does with its gss_* flags when no GSS key exchange took place.
     t = paramiko.Transport(sock, packetizer_class=FullTap, **kw)
     t.banner_timeout = t.handshake_timeout = 60
     return t
@@ -547,6 +576,10 @@ def run_gate(cfg, workdir, rnd, cred="password", universe=None, badsig=False):
     obs = gate_obs()
     holder = {}
     kw = {"username": "u"}
+    gss = cfg.get("gss", "none")
+    if gss != "none":
+        kw.update(gss_kex=gss in ("kex", "both"), gss_auth=gss in ("auth", "both"), gss_deleg_creds=rnd.random() < 0.5,
+                  gss_trust_dns=False)
     if cred == "password":
         kw["password"] = SECRET
     else:
@@ -575,7 +608,7 @@ def run_gate(cfg, workdir, rnd, cred="password", universe=None, badsig=False):
             raise DriverError("connect did not return within 60 s for %r" % (cfg,))
         obs["raised"] = exc is not None
         obs["exc"] = "" if exc is None else ("%s: %s" % (type(exc).__name__, exc))[:160]
-        if exc is not None and not isinstance(exc, (paramiko.SSHException, EOFError)):
+        if exc is not None and not isinstance(exc, (paramiko.SSHException, EOFError, ImportError)):
             raise DriverError("unexpected exception from connect: %r" % (exc,))
         if tc is not None:
             srv.drained(tc)
